@@ -4,6 +4,7 @@ use vstd::prelude::*;
 use std::marker::PhantomData;
 use std::ops;
 //@include _prelude.rs
+//@alloc_budget
 //@rlimit 40
 
 verus! {
@@ -440,7 +441,6 @@ pub fn vx_drain_to<T, const N: usize>(v: &mut bounded::BoundedVec<T, N>, n: usiz
 //@    impl <T, const N: usize> BoundedVec<T, N>
 //@      fn with_capacity
 //@        ret r
-//@        body_sub Vec::with_capacity\( => vx_vec_with_capacity(
 //@        requires
 //@          capacity <= vx_received() + VX_ALLOC_SLACK || capacity > N
 //@        ensures
